@@ -179,18 +179,17 @@ def mutator_task(m, present):
             key = "origin" if m == "add_origin" else "destination"
             member = graph.membership.get(("in-graph", id(n1)))
             asked = member is not None
-            c.oblige("post", f"{m} looks at whether the node is already in the graph", T.const(asked), assume_after=False)
-            if asked:
-                in_graph = any(h is member for h in c.hyps)
-                not_in = any(h is T.not_(member) for h in c.hyps)
-                if not_in:
-                    good = len(calls) == 1 and calls[0][1] == "add_node" and calls[0][2] == (n1,) and calls[0][3] == {key: x} and not sets
-                    c.oblige("post", f"{m} on a new node adds it with attribute {key!r} = the given element", T.const(good), assume_after=False)
-                elif in_graph:
-                    good = not calls and len(sets) == 1 and sets[0][1] is n1 and sets[0][2] == key and sets[0][3] is x
-                    c.oblige("post", f"{m} on an existing node replaces its attribute {key!r} by the given element and nothing else", T.const(good), assume_after=False)
-                else:
-                    c.oblige("post", f"{m} decides on the node's membership", T.FALSE, assume_after=False)
+            in_graph = asked and any(h is member for h in c.hyps)
+            # the effect wanted: afterwards the node is in the graph with attribute key = the given element,
+            # nothing else changed.  networkx offers two ways: add_node(n, key=x) (creates the node or
+            # updates the attributes of an existing one) and nodes[n][key] = x (only for an existing node)
+            by_add = len(calls) == 1 and calls[0][1] == "add_node" and calls[0][2] == (n1,) and calls[0][3] == {key: x} and not sets
+            by_set = not calls and len(sets) == 1 and sets[0][1] is n1 and sets[0][2] == key and sets[0][3] is x
+            if in_graph:
+                c.oblige("post", f"{m} on an existing node replaces its attribute {key!r} by the given element and nothing else", T.const(by_add or by_set), assume_after=False)
+            else:
+                c.oblige("post", f"{m} on a node that may be new adds it with attribute {key!r} = the given element (writing into the attribute dict of a missing node is not possible)",
+                         T.const(by_add), assume_after=False)
 
     return Task(f"{NETQ}:Network.{m}<{label}>", run, props=("C08", "C09", "C02", "C04", "C06", "C07", "C19"), func=f"{NETQ}:Network.{m}", config=label)
 
